@@ -753,6 +753,8 @@ class Engine:
                     L += [r_ <= ae + be]
                     L.append(z3.Implies(ae == be, r_ == 0))
                 self.ex.assumptions.append(z3.And(L))
+                if not hasattr(self.ex, 'bitops'): self.ex.bitops = []
+                self.ex.bitops.append((op, ae, be, r_))      # lets the harness refine a model that gives the abstracted result a wrong value
                 return IntV(r_, ty)
             return IntV(z3.Int(self.ex.fresh_name('bitop_' + op)), ty)
         raise Exception('binop ' + op)
